@@ -74,11 +74,34 @@ Inductive astep :=
 | Symlink (src dst : path)          (* os.Symlink(rel(src), dst), EEXIST tolerated *)
 | Rebuild (gz tar tmp : path)       (* PackageData: os.Open(tar); on ENOENT decompress gz into the temporary
                                        file tmp (CreateTemp next to tar) and publish it with Rename *)
-| Rename (src dst : path).          (* os.Rename: atomic, replaces whatever is at dst *)
+| Rename (src dst : path)           (* os.Rename: atomic, replaces whatever is at dst *)
+(* the index download of cacheTransport.fetchAndCache: HEAD, os.Stat of the name the
+   HEAD's etag stands for, GET.  [byhead]/[name] select the etag that NAMES the
+   downloaded file: the code today uses the etag of the GET response
+   ([false]/[None]); [true]/[Some e] is the variant that files the body under
+   the HEAD's etag (refuted in c19_head_etag_refuted). *)
+| Head (o : nat) (dir : string) (byhead : bool)
+| IdxStat (o : nat) (dir : string) (etag : string) (byhead : bool)
+| Get (o : nat) (dir : string) (name : option string).
 
 (* create, write chunk by chunk, close *)
 Definition write_file (p : path) (c : content) : list astep :=
   Create p :: List.map (Append p) c ++ [Close p].
+
+(* a sequence of AdvertiseCachedFile calls *)
+Definition adv_steps (l : list (path * path)) : list astep :=
+  List.map (fun st => Advertise (fst st) (snd st)) l.
+
+(* cacheTransport.retrieveAndSaveFile for a response carrying [etag] and
+   [body]: MkdirAll, CreateTemp, io.Copy, Close, AdvertiseCachedFile. *)
+Definition populate_index (o : nat) (d etag : string) (body : content) : list astep :=
+  MkdirAll (PDir d) :: write_file (PTmpFile d o) body ++
+  adv_steps [(PTmpFile d o, PIndex d etag)].
+
+(* The origin's index revision can change between any two steps: at (global)
+   step number [t] a request for the index of directory [dir] is answered with
+   [srv t dir] = (etag, body).  Nothing relates [srv t] and [srv (S t)]. *)
+Definition server := nat -> string -> string * content.
 
 Section Exec.
 Variable gunzip : content -> content.
@@ -106,10 +129,31 @@ Definition exec (d : disk) (a : astep) : disk * list astep :=
           end)
   | Rename src dst =>
       (match d src with Some x => upd (upd d dst (Some x)) src None | None => d end, [])
+  (* cacheTransport.get: os.Stat(<name of the HEAD's etag>) — present: that file is
+     used, nothing is downloaded; absent: GET *)
+  | IdxStat o dir e byhead =>
+      (d, match resolve d (PIndex dir e) with
+          | Some _ => []
+          | None => [Get o dir (if byhead then Some e else None)]
+          end)
+  | Head _ _ _ | Get _ _ _ => (d, [])      (* need the origin: see exec_t *)
+  end.
+
+(* the steps that talk to the origin, at time [now] *)
+Variable srv : server.
+Definition exec_t (now : nat) (d : disk) (a : astep) : disk * list astep :=
+  match a with
+  | Head o dir byhead => (d, [IdxStat o dir (fst (srv now dir)) byhead])
+  | Get o dir name =>
+      (* retrieveAndSaveFile: the response carries an etag and a body; the cachePlacer
+         callback names the file *)
+      let (e2, body) := srv now dir in
+      (d, populate_index o dir (match name with Some e => e | None => e2 end) body)
+  | _ => exec d a
   end.
 
 (* ---- a system of builders sharing one disk ---------------------------- *)
-Record sys := { dsk : disk; procs : list (list astep) }.
+Record sys := { dsk : disk; procs : list (list astep); clk : nat }.
 
 Fixpoint set_nth {A} (l : list A) (i : nat) (x : A) : list A :=
   match l, i with
@@ -118,35 +162,24 @@ Fixpoint set_nth {A} (l : list A) (i : nat) (x : A) : list A :=
   | h :: t, S i' => h :: set_nth t i' x
   end.
 
-(* builder [i] performs its next atomic step (nothing happens if it has
-   finished or does not exist) *)
+(* builder [i] performs its next atomic step (only the clock ticks if it has
+   finished or does not exist: the origin may move on while nobody does anything) *)
 Definition step (s : sys) (i : nat) : sys :=
   match nth_error (procs s) i with
   | Some (a :: rest) =>
-      let (d', pre) := exec (dsk s) a in
-      {| dsk := d'; procs := set_nth (procs s) i (pre ++ rest) |}
-  | _ => s
+      let (d', pre) := exec_t (clk s) (dsk s) a in
+      {| dsk := d'; procs := set_nth (procs s) i (pre ++ rest); clk := S (clk s) |}
+  | _ => {| dsk := dsk s; procs := procs s; clk := S (clk s) |}
   end.
 
 (* a schedule = which builder moves next; a builder that crashes simply does
    not appear in the schedule any more *)
 Definition run (s : sys) (sched : list nat) : sys := fold_left step sched s.
 
-Definition init (bs : list (list astep)) : sys := {| dsk := empty_disk; procs := bs |}.
+Definition init (bs : list (list astep)) : sys := {| dsk := empty_disk; procs := bs; clk := 0 |}.
 End Exec.
 
 (* ---- the population protocols ------------------------------------------ *)
-
-(* a sequence of AdvertiseCachedFile calls *)
-Definition adv_steps (l : list (path * path)) : list astep :=
-  List.map (fun st => Advertise (fst st) (snd st)) l.
-
-(* cacheTransport.retrieveAndSaveFile for a response carrying [etag] and
-   [body]: MkdirAll, CreateTemp, io.Copy, Close, AdvertiseCachedFile.  The
-   name is computed from the etag of the SAME response the body came with. *)
-Definition populate_index (o : nat) (d etag : string) (body : content) : list astep :=
-  MkdirAll (PDir d) :: write_file (PTmpFile d o) body ++
-  adv_steps [(PTmpFile d o, PIndex d etag)].
 
 (* what one .apk consists of, with the names its sections get in the cache *)
 Record apk := {
@@ -179,15 +212,26 @@ Definition pkg_advs (o : nat) (d : string) (a : apk) : list (path * path) :=
   [(PTmpMem d o MDat, PMember d MDat (a_dath a));
    (PTmpMem d o MTar, PMember d MTar (a_dath a))].
 
+(* the repair proposed for findings C19-F2/F3 (fixes/C19-F2.patch, NOT applied):
+   the control section — the name a lookup starts from — is advertised LAST *)
+Definition pkg_advs_ctl_last (o : nat) (d : string) (a : apk) : list (path * path) :=
+  (match a_sig a with Some _ => [(PTmpMem d o MSig, PMember d MSig (a_ctlh a))] | None => [] end) ++
+  [(PTmpMem d o MDat, PMember d MDat (a_dath a));
+   (PTmpMem d o MTar, PMember d MTar (a_dath a));
+   (PTmpMem d o MCtl, PMember d MCtl (a_ctlh a))].
+Definition pkg_advs_ord (ctl_last : bool) := if ctl_last then pkg_advs_ctl_last else pkg_advs.
+
 (* expandPackage on a miss: MkdirAll, ExpandApk (MkdirTemp, the stream files,
    the tar file), then cachePackage (the AdvertiseCachedFile calls) *)
-Definition populate_package (o : nat) (d : string) (a : apk) : list astep :=
+Definition populate_package_ord (ctl_last : bool) (o : nat) (d : string) (a : apk) : list astep :=
   let t := fun m => PTmpMem d o m in
   [MkdirAll (PDir d); MkTemp (PTmpDir d o)] ++
   (match a_sig a with Some s => write_file (t MSig) s | None => [] end) ++
   write_file (t MCtl) (a_ctl a) ++
   (Create (t MDat) :: Create (t MTar) :: mix (t MDat) (t MTar) (a_dat a) (a_tar a) ++
-   Close (t MTar) :: Close (t MDat) :: adv_steps (pkg_advs o d a) ++ open_tar o d (a_dath a)).
+   Close (t MTar) :: Close (t MDat) :: adv_steps (pkg_advs_ord ctl_last o d a) ++ open_tar o d (a_dath a)).
+(* the code today: control section first *)
+Definition populate_package := populate_package_ord false.
 
 
 (* ---- builders ---------------------------------------------------------------
@@ -196,26 +240,28 @@ Definition populate_package (o : nat) (d : string) (a : apk) : list astep :=
    directory where control and data sections are present: its only effect on
    the disk is PackageData's rebuild of <hash>.dat.tar when that is missing. *)
 Inductive builder :=
-| BIndex (dir etag : string)
+| BIndex (dir : string)                 (* HEAD, Stat, GET + retrieveAndSaveFile: which revision it gets is the origin's choice *)
 | BPackage (dir : string) (a : apk)
 | BReader (dir dath : string).
 
 Definition is_reader (b : builder) : bool := match b with BReader _ _ => true | _ => false end.
 
-Definition prog_of (origin : path -> content) (o : nat) (b : builder) : list astep :=
+Definition prog_of_ord (ctl_last : bool) (o : nat) (b : builder) : list astep :=
   match b with
-  | BIndex dir e => populate_index o dir e (origin (PIndex dir e))
-  | BPackage dir a => populate_package o dir a
+  | BIndex dir => [Head o dir false]
+  | BPackage dir a => populate_package_ord ctl_last o dir a
   | BReader dir dath => open_tar o dir dath
   end.
+Definition prog_of := prog_of_ord false.
 
 (* builder number k gets temporary-name identity k *)
-Fixpoint progs_from (origin : path -> content) (o : nat) (bs : list builder) : list (list astep) :=
+Fixpoint progs_from (ctl_last : bool) (o : nat) (bs : list builder) : list (list astep) :=
   match bs with
   | [] => []
-  | b :: t => prog_of origin o b :: progs_from origin (S o) t
+  | b :: t => prog_of_ord ctl_last o b :: progs_from ctl_last (S o) t
   end.
-Definition progs (origin : path -> content) (bs : list builder) := progs_from origin 0 bs.
+Definition progs_ord (ctl_last : bool) (bs : list builder) := progs_from ctl_last 0 bs.
+Definition progs := progs_ord false.
 
 (* ---- the readers --------------------------------------------------------- *)
 Record members := { m_ctl : content; m_sig : option content; m_dat : content; m_tar : content }.
@@ -251,6 +297,24 @@ Definition read_package_seq (datahash_of : content -> string) (d1 d2 : disk) (di
       | None => Miss
       | Some (dat, _) =>
           match resolve d2 (PMember dir MTar dh) with
+          | Some (tar, _) => Hit {| m_ctl := ctl; m_sig := sg; m_dat := dat; m_tar := tar |}
+          | None => NeedsRebuild
+          end
+      end
+  end.
+
+(* in full generality: the four sections are looked up in four states (the
+   order of cachedPackage: control, signature, data, tar) *)
+Definition read_package_seq4 (datahash_of : content -> string) (d1 d2 d3 d4 : disk) (dir ctlh : string) : lookup :=
+  match resolve d1 (PMember dir MCtl ctlh) with
+  | None => Miss
+  | Some (ctl, _) =>
+      let sg := match resolve d2 (PMember dir MSig ctlh) with Some (s, _) => Some s | None => None end in
+      let dh := datahash_of ctl in
+      match resolve d3 (PMember dir MDat dh) with
+      | None => Miss
+      | Some (dat, _) =>
+          match resolve d4 (PMember dir MTar dh) with
           | Some (tar, _) => Hit {| m_ctl := ctl; m_sig := sg; m_dat := dat; m_tar := tar |}
           | None => NeedsRebuild
           end
@@ -358,3 +422,47 @@ Definition package_data_call_names : list string :=
    "os.CreateTemp(_)"; "io.CopyBuffer(_)"; "os.Rename(" +s+ member_field MTar +s+ ")";
    "os.Open(" +s+ member_field MTar +s+ ")"].
 Definition not_remove (c : string) : bool := negb (String.prefix "os.Remove(" c).
+
+(* ---- what the index-download steps and the temporary names stand for in the
+   source (compared with what goextract reads on every run) ------------------- *)
+
+(* [Get o dir name]: which etag names the file.  The code today: the etag of the
+   response handed to the cachePlacer callback, which is the response whose
+   body io.Copy reads. *)
+Definition name_source (name : option string) : string :=
+  match name with
+  | None => "etag-of-the-response-handed-to-the-callback"
+  | Some _ => "etag-from-outside-the-callback:initialEtag"
+  end.
+(* the program of a builder after its HEAD and a Stat that misses (run on an
+   empty disk against an origin that serves nothing): for an index download
+   this is the Get step, whose [name] says which etag will name the file *)
+Definition after_head_and_miss (b : builder) : list astep :=
+  match procs (run (fun z => z) (fun _ _ => ("", [])) (init (progs [b])) [0; 0]) with
+  | [p] => p
+  | _ => []
+  end.
+Definition name_sources_of (prog : list astep) : list string :=
+  List.flat_map (fun a => match a with Get _ _ nm => [name_source nm] | _ => [] end) prog.
+Definition response_flow_model : list string := ["placer(R)"; "io.Copy(_, R.Body)"].
+
+(* [PTmpFile d o], [PTmpDir d o]: a fresh name per protocol instance, i.e.
+   os.CreateTemp / os.MkdirTemp; [PTmpMem d o m]: fixed names inside that
+   private directory *)
+Definition temp_name_call (p : path) : string :=
+  match p with
+  | PTmpFile _ _ => "os.CreateTemp(*.tmp)"
+  | PTmpDir _ _ => "os.MkdirTemp(expand-apk)"
+  | PTmpMem _ _ _ => "os.Create(_)"
+  | _ => "?"
+  end.
+Local Infix "+s+" := String.append (at level 60, right associativity).
+Definition temp_sites_model : list string :=
+  ["retrieveAndSaveFile:" +s+ temp_name_call (PTmpFile "" 0);     (* populate_index *)
+   "PackageData:" +s+ temp_name_call (PTmpFile "" 0);             (* Rebuild's tmp *)
+   "ExpandApk:" +s+ temp_name_call (PTmpDir "" 0);                (* populate_package *)
+   "ExpandApk:" +s+ temp_name_call (PTmpMem "" 0 MTar)].          (* the tar next to the stream files *)
+Definition temp_flows_model : list string :=
+  ["retrieveAndSaveFile:advertise-src=result-of-os.CreateTemp";
+   "PackageData:rename-src=result-of-os.CreateTemp";
+   "ExpandApk:stream-files-dir=result-of-os.MkdirTemp"].
